@@ -238,6 +238,14 @@ def drive(ctx, case, d, tr):
         for name, ind in (('vis', d.vis), ('flags', d.flags), ('weights', d.weights)):
             if tuple(int(x) for x in ind.shape) != shape:
                 return f'{name}.shape {tuple(ind.shape)} != data set shape {shape}', nontrivial
+        # the sensor cache must interpolate onto the same dump timestamps the data set reports
+        st = np.asarray(d.sensor.timestamps[:])
+        if st.shape == (T,) and not np.array_equal(st, tr.timestamps):
+            return (f'the sensor cache works on timestamps {st.tolist()[:3]}… that are not the data timestamps '
+                    f'{tr.timestamps.tolist()[:3]}…'), nontrivial
+        half = 0.5 * d.dump_period
+        if abs(d.start_time.secs - (tr.timestamps[0] - half)) > 1e-6 or abs(d.end_time.secs - (tr.timestamps[-1] + half)) > 1e-6:
+            return 'start_time / end_time do not bracket the first and last dump by half a dump', nontrivial
         si = np.asarray(d.sensor['Observation/scan_index'])
         full = np.asarray(d.sensor.get('Observation/scan_index')[:])
         if si.shape != (shape[0],) or not np.array_equal(si, full[dumps]):
